@@ -101,6 +101,7 @@ class Gen:
         self.setups = []        # references to results of the setup call sites of this DAG
         self.flagpool = []      # elements of earlier results that are flag-like: several calls gated by parts of one result
         self.typed = {"s": [], "t": [], "l": [], "d": []}    # results that are a str / tuple / list / dict for sure
+        self.whole_subs = []
         for _ in range(self.nsites):
             self.add_site()
         ret = self.gen_ret()
@@ -324,6 +325,8 @@ class Gen:
             site["active"] = self.any_ref() if rng.random() < 0.7 else r_const(rng.choice(FLAG_VALUES))
             self.flagged = True
         shape = Q["ret"]["shape"]
+        if shape != "single" and site["active"]["c"] == "none":
+            self.whole_subs.append(r_site(j))      # the tuple / list / dict of a nested DAG, only ever handed straight back
         if shape == "single":
             self.anys.append(r_site(j))
         elif shape in ("tuple", "list"):
@@ -353,6 +356,8 @@ class Gen:
         if shape == "none":
             return {"shape": "none", "refs": [], "keys": []}
         if shape == "single":
+            if self.depth == 0 and self.whole_subs and rng.random() < 0.35:
+                return {"shape": "single", "refs": [rng.choice(self.whole_subs)], "keys": []}      # return sub(...)
             return {"shape": "single", "refs": [rng.choice(site_refs)], "keys": []}
         n = rng.randint(1, 3)
         refs = [one() for _ in range(n)]
